@@ -19,7 +19,7 @@ from ..e1 import bfs, build
 LEVEL = "model_checking"
 RULE = (
     "every TREE(N) tree with a final state x onDone decoration (all / single / single-leaving) x machine-output "
-    "(yes/no) as a universal machine, BFS to closure on sync and async; a case is one step; for every final-state "
+    "(none / an object / the falsy values 0, {} and a callable returning 0) as a universal machine, BFS to closure on sync and async; a case is one step; for every final-state "
     "entry in the step's log the reference counter derives the due onDone firings (compound: parent of the "
     "entered final child; parallel: when every non-history region is in a final state at that instant) and the "
     "multiset of observed onDone markers with their event data must equal it; top-level (also with a second event queued behind the completing one in a send_events batch): status done once, "
@@ -36,6 +36,14 @@ ASSUMPTIONS = [
     "decoration only decorates one node, so this cannot arise there)",
 ]
 ENGINES = ("sync", "async")
+
+
+def _fn_zero(args):
+    return 0
+
+
+# machine-level output variants: unit value -> (declared output, value the machine must report)
+MOUT = {True: ({"machine": True}, {"machine": True}), "zero": (0, 0), "empty": ({}, {}), "fn-zero": (_fn_zero, 0)}
 
 
 def eligible(nodes: List[F.N]) -> List[F.N]:
@@ -59,6 +67,10 @@ def units(tier: str) -> List[Any]:
         el = eligible(nodes)
         out.append((t, "all", None, False))
         out.append((t, "all", None, True))
+        if nodes[0].kind == "C" and any(c.kind == "F" for c in nodes[0].children):
+            # a declared machine-level output that is a falsy value is still THE output
+            for mo in ("zero", "empty", "fn-zero"):
+                out.append((t, "all", None, mo))
         for x in el:
             out.append((t, "single", x.idx, False))
             if x.idx != 0:
@@ -84,7 +96,7 @@ def build_cfg(unit):
             od["target"] = f"#{first.id}"
         sub["onDone"] = od
     if mout:
-        cfg["output"] = {"machine": True}
+        cfg["output"] = MOUT[mout][0]
     return cfg, nodes, events, [n.id for n in decorated]
 
 
@@ -151,7 +163,7 @@ def run_unit(unit):
     tree, mode, x, mout = unit
     cfg, nodes, events, decorated = build_cfg(unit)
     byid = {n.id: n for n in nodes}
-    label = f"{F.tree_str(tree)}+onDone[{mode}{'' if x is None else ':' + nodes[x].id}]" + ("+machineOutput" if mout else "")
+    label = f"{F.tree_str(tree)}+onDone[{mode}{'' if x is None else ':' + nodes[x].id}]" + ("" if not mout else "+machineOutput" if mout is True else f"+machineOutput[{mout}]")
     res = dict(states=0, transitions=0, executions=0, distinct_count=0, violations=[], samples=[], caps=[])
     for engine in ENGINES:
         h = Harness(cfg, with_plugin=True)
@@ -241,7 +253,7 @@ def run_unit(unit):
                     flag("top-level-final-not-done", f"status {o[2]}", hist, ev)
                 if len(dones) != 1 and o[2] == "done":
                     flag("on_done-hook-count", f"{len(dones)} on_done hooks", hist, ev)
-                want = {"machine": True} if mout else {"from": root_final.id}
+                want = MOUT[mout][1] if mout else {"from": root_final.id}
                 try:
                     got_out = __import__("json").loads(o[4]) if isinstance(o[4], str) else o[4]
                 except ValueError:
